@@ -241,13 +241,31 @@ async fn scenario(sim: Arc<Sim>, unit: Value) -> Obs {
     let ident = unit["identity"].as_str().unwrap();
     let behaviour = unit["behaviour"].as_str().unwrap();
     let (id, attributable) = identity(ident);
-    let ctx = format!("[adversary {role}, presents {ident}, then {behaviour}]");
+    let history = unit["history"].as_str().unwrap_or("none");
+    let ctx = format!("[{}adversary {role}, presents {ident}, then {behaviour}]", if history == "none" { String::new() } else { format!("history {history}; ") });
     // the real X exists too (its certificate is public knowledge), but is not connected to V
     let v = sim.start(&NodeSpec::new(V)).unwrap();
     let x = sim.start(&NodeSpec::new(X)).unwrap();
     let (xid, yid) = (x.peer_id(), peer_id_of_key(Y));
     sim.labels.lock().unwrap().insert(yid, "Y".into());
     sim.labels.lock().unwrap().insert(xid, "X".into());
+    if history == "x_was_connected" {
+        // the genuine X and the victim have completed handshakes in both directions shortly
+        // before (so that whatever either side remembers about X's certificate is warm), and are
+        // disconnected again
+        for inbound in [true, false] {
+            let r = if inbound { x.connect(v.local_addr()).await } else { v.connect(x.local_addr()).await };
+            if let Err(e) = r {
+                viol!("setup", "{ctx} history: X and the victim could not connect: {e}");
+            }
+            tokio::time::sleep(ms(30)).await;
+            let _ = v.disconnect(xid);
+            tokio::time::sleep(ms(100)).await;
+        }
+        if !v.peers().is_empty() || !x.peers().is_empty() {
+            viol!("setup", "{ctx} history: X and the victim are still connected");
+        }
+    }
     let (mut ev, _) = v.subscribe().unwrap();
     let nv = sim.node_of(&v);
     let mut connect_result: Option<Result<PeerId, String>> = None;
@@ -444,7 +462,7 @@ impl Check for C01 {
         CheckMeta {
             property: "C01",
             level: "fault_enumeration",
-            rule: "verifier layer: honest, replayed, re-signed, non-Ed25519, expired, not-yet-valid, wrong-EKU, wrong-name, concatenated certificates, every truncation and every single-byte substitution (5 values quick / all 255 thorough) of a valid certificate, offered to the client verifier, the server verifier (with and without an attached intermediate, pinned to X and to Y) and peer_id_from_certificate, against a ring + x509-parser reference; handshake-signature verifiers on all 65536 scheme codes x {right, wrong key}, every single-bit flip of a valid signature and every single-byte change of the message, for all three verifier types; system layer: adversary role {dials, is dialed, is dialed with pin X, with pin Y, is dialed with pin Y (or none) and then - with or without a disconnect in between - with pin X} x 9 presented identities x {complete, stall before the acknowledgement, close early}, with datagram-fate deviations over the handshake, and requests/responses whose contents name X; distinct = distinct (verdict class / role, admitted)".into(),
+            rule: "verifier layer: honest, replayed, re-signed, non-Ed25519, expired, not-yet-valid, wrong-EKU, wrong-name, concatenated certificates, every truncation and every single-byte substitution (5 values quick / all 255 thorough) of a valid certificate, offered to the client verifier, the server verifier (with and without an attached intermediate, pinned to X and to Y) and peer_id_from_certificate, against a ring + x509-parser reference; handshake-signature verifiers on all 65536 scheme codes x {right, wrong key}, every single-bit flip of a valid signature and every single-byte change of the message, for all three verifier types; system layer: adversary role {dials, is dialed, is dialed with pin X, with pin Y, is dialed with pin Y (or none) and then - with or without a disconnect in between - with pin X} x 9 presented identities x {complete, stall before the acknowledgement, close early}, the main roles also after a history in which the genuine X and the victim had connected in both directions and disconnected, with datagram-fate deviations over the handshake, and requests/responses whose contents name X; distinct = distinct (verdict class / role, admitted)".into(),
             assumptions: vec!["three fixed key pairs (victim, X, adversary Y); ring's Ed25519 and x509-parser are the trusted reference".into()],
             exhaustive: true,
         }
@@ -454,6 +472,11 @@ impl Check for C01 {
         let mut u = vec![json!({"kind":"signatures","on_death":"verifier-aborts-process"})];
         for part in 0..16 {
             u.push(json!({"kind":"verifier","part":part,"parts":16,"on_death":"verifier-aborts-process"}));
+        }
+        for role in ["dials", "dialed", "dialed_pinned_x"] {
+            for ident in ["honest_y", "replay_x", "forged_x_signed_by_y", "chain_x_then_y", "chain_y_then_x"] {
+                u.push(json!({"kind":"system","role":role,"identity":ident,"behaviour":"complete","history":"x_was_connected","bound":tier.pick(0, 1)}));
+            }
         }
         for role in ["dials", "dialed", "dialed_pinned_x", "dialed_pinned_y", "dialed_pinned_y_then_x", "dialed_pinned_y_disconnect_then_x", "dialed_then_pinned_x"] {
             for ident in IDENTITIES {
